@@ -1,5 +1,5 @@
 import CssVerif.Lemmas.Normalize
-import CssVerif.Lemmas.SheetSpec
+import CssVerif.Lemmas.SheetSpecSheet
 import CssVerif.Gen.C04Margins
 /-!
 # C02 — the parsed DOM is the same for every way of writing a well-formed sheet
@@ -50,69 +50,67 @@ example : normalize (spell [(true, false), (false, true), (true, true)] [0x63, 0
 /-! ## T2.2 `parse_render` — the structure level
 
 Model: the structure kernel K2 (`Model/Struct.lean`: `_tokensupto2`, `_parse`, declaration block, property
-split, style / unknown rule, sheet dispatcher), for EVERY oracle `O` of the selector / value sub-parsers and
-every margin table `M`.  Specification: `Model/SheetSpec.lean` (abstract sheet `A…`, spelled sheet `S…`,
-`erase`, `render`, DOM projection `projSheet`).  `SSheet.WF O M s` (Lemmas/SheetSpec.lean) says that the opaque
-parts are what the abstract syntax means by them — names are names, a value is a well nested token list
-without `;` `!` at depth 0 that neither starts nor ends with white space / a comment, a selector group likewise
-without `,` `;` braces — and that `O` accepts the selector and value token lists as they are written. -/
-open CssVerif.SheetSpec CssVerif.Struct
+split, style / media / unknown rule, sheet dispatcher) and the at-rule setters of `Model/AtRules.lean`
+(`@import`, `@namespace`, `@font-face`, `@page` with margin boxes, `@charset`), for EVERY oracle `O` of the
+selector / value / media-query sub-parsers whose at-rule part is those setters (`AtFaithful O`; `withAtRules`
+builds one from any oracle) and every margin table `M`.
+Specification: `Model/SheetSpec.lean` — abstract sheet `A…`, spelled sheet `S…`, `erase`, `render`, DOM
+projection `projSheet`.  `SSheet.WF O M s` (Lemmas/SheetSpec*.lean) says that the opaque parts are what the
+abstract syntax means by them — names are names; a value is a well nested token list without `;` `!` at depth 0
+that, comments aside, neither starts nor ends with white space; a selector group likewise without `,` `;`
+braces; a media query list without braces and strings; prefixes and URIs of `@namespace` are declared once —
+and that `O` accepts the selector, value and media-query token lists as they are written. -/
+open CssVerif.SheetSpec CssVerif.Struct CssVerif.AtRules
 open CssVerif.Proto (Cps cps)
 
 /-- **T2.2 parse_render.**  For every spelled sheet `s` — an abstract sheet together with any choice of
-white-space / comment tokens at every gap of its statements, any letter case and simple escapes of property
-names and of the priority ident, any placement of stand-alone `;` and the optional `;` after the last
-declaration — the DOM projection of what the parser builds from the tokens of `s` is the abstract sheet. -/
-theorem parse_render (O : Oracle) (M : List Cps) (s : SSheet) (h : s.WF O M) :
-    projSheet (parseSheet O M (render s)) = s.erase := by
-  rw [parseSheet_render O M s h]
-  simp only [projSheet, SSheet.erase, List.map_map]
-  apply List.map_congr_left
-  intro p hp
-  exact projRule_parsed O M [] p.1 (h p hp)
+white-space / comment tokens at every gap of its statements, any letter case and simple escapes of at-keywords,
+property names and the priority ident, any quote style of import targets / namespace URIs / the encoding, any
+placement of stand-alone `;` and the optional `;` after the last declaration — the DOM projection of what the
+parser builds from the tokens of `s` is the abstract sheet: the rules in order, each with its selector groups,
+declarations (name, value, priority), media queries, import target, namespace binding, and nothing else. -/
+theorem parse_render (O : Oracle) (M : List Cps) (hO : AtFaithful O) (s : SSheet) (h : s.WF O M) :
+    projSheet O M (parseSheet O M (render s)) = s.erase := by
+  rw [parseSheet_render O M hO s h, projSheet_parsed O M s h]
 
 /-- corollary: all spellings of one abstract sheet give the same DOM -/
-theorem spelling_invariance (O : Oracle) (M : List Cps) (s₁ s₂ : SSheet) (h₁ : s₁.WF O M) (h₂ : s₂.WF O M)
-    (he : s₁.erase = s₂.erase) :
-    projSheet (parseSheet O M (render s₁)) = projSheet (parseSheet O M (render s₂)) := by
-  rw [parse_render O M s₁ h₁, parse_render O M s₂ h₂, he]
+theorem spelling_invariance (O : Oracle) (M : List Cps) (hO : AtFaithful O) (s₁ s₂ : SSheet)
+    (h₁ : s₁.WF O M) (h₂ : s₂.WF O M) (he : s₁.erase = s₂.erase) :
+    projSheet O M (parseSheet O M (render s₁)) = projSheet O M (parseSheet O M (render s₂)) := by
+  rw [parse_render O M hO s₁ h₁, parse_render O M hO s₂ h₂, he]
+
+/-- the hypothesis on the oracle is satisfiable from any oracle: replace its at-rule part by the setters of
+`Model/AtRules.lean` (this is the oracle of the correspondence) -/
+theorem withAtRules_faithful (O : Oracle) : AtFaithful (withAtRules O) :=
+  ⟨fun _ _ => rfl, fun _ _ => rfl, fun _ => rfl, fun _ => rfl⟩
 
 /-- the declaration block alone (`CSSStyleDeclaration.cssText = tokens`, also the body of `@page` /
 `@font-face`): every spelled block gives back its abstract items -/
 theorem block_recovered (O : Oracle) (b : SBlock) (h : b.WF O) :
-    (parseDecls O b.toks).filterMap projItem = b.erase :=
+    projItems (parseDecls O b.toks) = b.erase :=
   parseDecls_block O b h
 
 /-- the selector list alone (`SelectorList._setSelectorText`): the groups are recovered -/
 theorem selector_groups_recovered (s : SSel) (h : s.WF) : (selGroups s.toks).map clean = s.erase :=
   selGroups_render s h
 
-/-! non-vacuity: `a , /*c*/ b { COLOR /*x*/ : red ! IMPORTANT ; ; /*k*/ top : 0 }  @x y ;` -/
-namespace Ex2
-open CssVerif.Struct.Ex
-def sp1 : Ws := ⟨.space, []⟩
-def dColor : SDecl :=
-  { name := cps "color", nameSp := [(true, false), (true, true), (true, false)], g1 := [.ws sp1, .cm (cps "x"), .ws sp1],
-    g2 := [.ws sp1], value := [idt "red" 7], g3 := [.ws sp1],
-    prio := some ([.ws sp1], cps "important", [(true, false), (true, true)], [.ws sp1]) }
-def dTop : SDecl := { name := cps "top", g1 := [.ws sp1], g2 := [.ws sp1], value := [num "0"], g3 := [.ws ⟨.lf, [.tab]⟩] }
-def sheet : SSheet :=
-  { lead := [sp1],
-    rules := [
-      (.style { first := [idt "a" 1], post := [.ws sp1], more := [([.ws sp1, .cm (cps "c"), .ws sp1], [idt "b" 2], [.ws sp1])] }
-        { lead := [sp1], items := [(.decl dColor, [sp1]), (.semi, [sp1]), (.comment (cps "k"), [sp1])], last := some dTop },
-       [sp1, sp1]),
-      (.unknown [atk "@x", sp, idt "y", sp, semi], [])] }
-end Ex2
+/-- `@media` (nested to any depth): `CSSMediaRule.cssText = tokens` builds the rule of the spelled one, with
+any amount of fuel above the number of tokens -/
+theorem media_rule_recovered (O : Oracle) (M : List Cps) (ns : List (Cps × Cps)) (kw : Mask) (g1 : Gap)
+    (mq : List Tok) (g2 : Gap) (lead : WGap) (rules : SRules)
+    (h : (SRule.media kw g1 mq g2 lead rules).WF O M ns false) (f : Nat)
+    (hf : (SRule.media kw g1 mq g2 lead rules).toks.length < f) :
+    (mediaRule O ns f (SRule.media kw g1 mq g2 lead rules).toks).map (projRule O M) =
+      some (SRule.media kw g1 mq g2 lead rules).erase := by
+  rw [mediaRule_render O M ns kw g1 mq g2 lead rules false h f hf]
+  simp [projRule_parsed O M ns false _ h]
 
-example : Ex2.sheet.erase =
-    [.style [[Ex.idt "a" 1], [Ex.idt "b" 2]]
-       [.decl (cps "color") [Ex.idt "red" 7] (some (cps "important")), .comment (cps "k"),
-        .decl (cps "top") [Ex.num "0"] none],
-     .unknown [Ex.atk "@x", Ex.sp, Ex.idt "y", Ex.sp, Ex.semi]] := by decide
-
-/-- a test (evaluation of the model on the rendered example), not a theorem -/
-example : projSheet (parseSheet Ex.yes CssVerif.Gen.C04.margins (render Ex2.sheet)) = Ex2.sheet.erase := by
-  decide +kernel
+/-- string values: `_stringtokenvalue` / `_uritokenvalue` give back the text for every quote style, every
+case of `url`, white space inside `url( )` -/
+theorem href_recovered (r : SHref) (h : r.WF) :
+    (match r with
+      | .str .. => stringValue r.tok.val
+      | .url .. => uriValue r.tok.val) = r.value :=
+  href_value r h
 
 end CssVerif.C02
